@@ -169,3 +169,55 @@ CONTRACTS = [
              notes="v2: quotes {double, single, alternating per attribute (two patterns)} x {one line, LF, CRLF between declarations and body} x the same bodies",
              props=["C05"]),
 ]
+
+
+# ------------------------------------------------------------------------------------------ a stray byte in the header
+def check_stray_byte(it, fn, a):
+    """a v1 header in which one byte outside ASCII stands inside a field's value or name: the file is refused - or, where the
+    header syntax admits the character (the two UIDs take any word character), the field reported holds it"""
+    field, byte, where, sep = a
+    from ofxtools.header import parse_header
+    fields = [(k, ("abc-1" if k == "NEWFILEUID" else "old-2" if k == "OLDFILEUID" else v)) for k, v in V1_FIELDS]
+    lines = []
+    for k, v in fields:
+        if k == field:
+            if where == "value-middle":
+                v = v[:len(v) // 2].encode("ascii") + bytes([byte]) + v[len(v) // 2:].encode("ascii")
+            elif where == "value-end":
+                v = v.encode("ascii") + bytes([byte])
+            else:
+                k_ = k[:2].encode("ascii") + bytes([byte]) + k[2:].encode("ascii")
+                lines.append(k_ + b":" + v.encode("ascii")); continue
+            lines.append(k.encode("ascii") + b":" + v)
+        else:
+            lines.append(f"{k}:{v}".encode("ascii"))
+    data = sep.encode("ascii").join(lines) + b"\r\n\r\n<OFX>x</OFX>"
+    try:
+        header, body = parse_header(io.BytesIO(data))
+    except Exception:
+        return []
+    ch = bytes([byte]).decode("latin_1")
+    got = {"OLDFILEUID": header.oldfileuid, "NEWFILEUID": header.newfileuid}.get(field)
+    if where != "name" and got is not None and ch in str(got):
+        return []                     # admitted by the syntax and reported as it stands in the file
+    return [f"a {field} field with the byte {byte:#x} in its {where} is accepted: {field} reported as "
+            f"{getattr(header, field.lower(), None)!r}, body {body!r}"]
+
+
+def cases_stray(tier):
+    out = []
+    for field, _ in V1_FIELDS:
+        for byte in (0xE9, 0xFF, 0xA0, 0x85):
+            for where in ("value-middle", "value-end", "name"):
+                if where == "value-end" and byte in (0xA0, 0x85):
+                    continue          # in latin-1 these are white space: blanks after a value are part of the header syntax
+                for sep in ("\r\n", "\n"):
+                    out.append([field, byte, where, sep])
+    return out
+
+
+CONTRACTS.append(
+    Contract("ofxtools.header:parse_header", args=[A_("field"), A_("byte"), A_("where"), A_("sep")], call=check_stray_byte,
+             ensures=[("a-corrupted-header-is-refused-or-reported-as-it-stands", "result == []")], cases=cases_stray, native_only=True, shards=4,
+             notes="every v1 field x a byte outside ASCII (e-acute, 0xFF, no-break space, NEL) in the middle / at the end of its value or inside its name x CRLF / LF",
+             props=["C05", "C12"]))
